@@ -49,8 +49,15 @@ def oracle(case) -> Info:
     stream, spans = compose(stuffing, noise, frames, gaps, closing, frozenset(extra))
     reader = hdlc.HdlcFrameReader(use_octet_stuffing=stuffing, use_abort_sequence=abort)
     got = []
-    for chunk in G.split(stream, cuts):
-        got.extend(guarded(reader.read, chunk, what="HdlcFrameReader.read"))
+    from vlib import fakeclock
+
+    chunks_ = G.split(stream, cuts)
+    gap_pattern = ("none", "mixed", "long", "short")[(len(stream) + closing) % 4] if len(chunks_) <= 4000 else "none"
+    gaps = fakeclock.gaps_for(len(chunks_), gap_pattern, len(stream))
+    with fakeclock.FakeClock() as clk:  # the harness owns the clock: virtual seconds pass between the calls
+        for chunk, gap in zip(chunks_, gaps):
+            clk.advance(gap)
+            got.extend(guarded(reader.read, chunk, what="HdlcFrameReader.read"))
     got_b = [guarded(lambda fr=fr: fr.as_bytes) for fr in got]
     if got_b != frames:
         # describe the first difference
@@ -81,7 +88,7 @@ def oracle(case) -> Info:
     has_special = any(FLAG in (ref_fields(f)["payload"] or b"") or ESC in (ref_fields(f)["payload"] or b"") for f in frames)
     long_addr = any(len(ref_fields(f)["destination_address"]) > 2 or len(ref_fields(f)["source_address"]) > 2 for f in frames)
     nt = (len(frames) >= 2 and cut_inside) or has_max or has_special or long_addr
-    classes = [f"cfg:{int(stuffing)}{int(abort)}", f"cuts:{cuts[0]}", f"frames:{len(frames)}"]
+    classes = [f"cfg:{int(stuffing)}{int(abort)}", f"cuts:{cuts[0]}", f"frames:{len(frames)}", f"gaps:{gap_pattern}"]
     for flag, name in ((cut_inside, "cut-inside-frame"), (has_max, "max-length-frame"), (has_special, "payload-has-7E/7D"), (long_addr, "address>2"), (bool(noise), "leading-noise"), (any(ref_fields(f)["header_only"] for f in frames), "header-only")):
         if flag:
             classes.append(name)
@@ -155,6 +162,7 @@ def build() -> Check:
             "Distinct = distinct case hash."
         ),
         assumptions=[
+            "The wall clock is replaced by a virtual clock; drawn gaps of 0 s .. 1 day pass between read() calls - delivery must not depend on timing.",
             "Expected fields come from vlib/ref_hdlc.ref_fields applied to the octets the harness built.",
             "Without stuffing the header octets (format .. HCS, whole frame if header-only) contain no 7E; with abort detection no 7D directly before a 7E or the frame end - exactly the domain stated in C02.",
             "With stuffing, 7E and 7D are always stuffed; up to three further octet values may be stuffed too (RFC 1662 allows a sender to escape more).",
